@@ -65,7 +65,7 @@ enum Op {
 
 #[derive(Serialize, Deserialize, Hash, Clone, Debug)]
 struct History {
-    /// 0 = empty root, 1 = three-level tree T0
+    /// 0 = empty root, 1 = three-level tree T0, 2 = T1 = T0 + {a-b/y, ab/y}
     root: u8,
     ops: Vec<Op>,
 }
@@ -222,7 +222,12 @@ fn root_tree(which: u8, dirs: &Dirs, store: &Store) -> (Map, Tree) {
     if which == 0 {
         return (Map::new(), Tree::default());
     }
-    let m = t0_model();
+    let mut m = t0_model();
+    if which == 2 {
+        // T1: T0 plus sibling directories of `a` whose names start with "a"
+        m_upsert(&mut m, &comps("a-b/y"), Val::BlobI1);
+        m_upsert(&mut m, &comps("ab/y"), Val::ExeI2);
+    }
     let id = build(&m, dirs, Some(store)).expect("T0 is not empty");
     let bytes = store.0.borrow().get(&id).cloned().expect("just stored");
     let t: Tree = gix_object::TreeRef::from_bytes(&bytes).unwrap_or_else(|e| vkit::machinery!("T0 does not decode: {e}")).into();
@@ -393,9 +398,16 @@ fn run_history(h: &History, dirs: &Dirs, st: &Stats) -> Result<&'static str, Str
     })
 }
 
-fn ops_alphabet(thorough: bool) -> Vec<Op> {
+/// level 0 = base alphabet (used for the depth-4 enumeration), 1 = quick (base + directories whose names have the cursor
+/// directories' names as byte prefix: ab/, a-b/, a/b./), 2 = thorough (more names)
+fn ops_alphabet(level: u8) -> Vec<Op> {
+    let thorough = level == 2;
     let mut ops = Vec::new();
-    let paths: &[&str] = if thorough { &["a", "a/b", "a/b/c", "a.", "a0", "b", "a-", "a/b."] } else { &["a", "a/b", "a/b/c", "a.", "a0", "b"] };
+    let paths: &[&str] = match level {
+        0 => &["a", "a/b", "a/b/c", "a.", "a0", "b"],
+        1 => &["a", "a/b", "a/b/c", "a.", "a0", "b", "ab/x", "a-b/x", "a/b./x"],
+        _ => &["a", "a/b", "a/b/c", "a.", "a0", "b", "a-", "a/b.", "ab/x", "a-b/x", "a/b./x", "a.d/x"],
+    };
     let vals: &[Val] = &[Val::BlobI1, Val::ExeI2, Val::TreeEmpty, Val::BlobNull];
     for p in paths {
         for v in vals {
@@ -421,20 +433,51 @@ fn ops_alphabet(thorough: bool) -> Vec<Op> {
     ops
 }
 
+/// cursor operations at `a` and `a/b` interleaved with pending edits of the root editor in sibling directories whose names
+/// start with the cursor directory's name (ab, a-b, a.d next to a; b., bc next to a/b)
+fn sibling_alphabet() -> Vec<Op> {
+    let s = |x: &str| x.to_string();
+    vec![
+        Op::Upsert(s("ab/x"), Val::BlobI1),
+        Op::Upsert(s("a-b/x"), Val::ExeI2),
+        Op::Upsert(s("a.d/x"), Val::BlobI1),
+        Op::Upsert(s("a/b./x"), Val::BlobI1),
+        Op::Upsert(s("a/bc/x"), Val::BlobI1),
+        Op::Upsert(s("a/x"), Val::BlobI1),
+        Op::Upsert(s("ab"), Val::BlobI1),
+        Op::Remove(s("ab/x")),
+        Op::Remove(s("a-b/y")),
+        Op::CursorUpsert(s("a"), s("x"), Val::BlobI1),
+        Op::CursorUpsert(s("a"), s("b/x"), Val::ExeI2),
+        Op::CursorUpsert(s("a/b"), s("x"), Val::BlobI1),
+        Op::CursorRemove(s("a"), s("b")),
+        Op::CursorWrite(s("a")),
+        Op::CursorWrite(s("a/b")),
+        Op::Cursor(s("a")),
+        Op::Write,
+        Op::SetRoot(2),
+    ]
+}
+
 pub fn run(run: &'static Run) {
     let thorough = !run.quick();
-    let alphabet = ops_alphabet(thorough);
-    // quick: all histories of length <= 3 over the quick alphabet; thorough: length <= 3 over the larger alphabet and length 4 over the quick one
-    let quick_alpha = ops_alphabet(false);
+    let alphabet = ops_alphabet(if thorough { 2 } else { 1 });
+    // quick: all histories of length <= 3 over the quick alphabet; thorough: length <= 3 over the larger alphabet and length 4 over the base one
+    let quick_alpha = ops_alphabet(0);
+    let quick_len = ops_alphabet(1).len();
+    let siblings = sibling_alphabet();
+    let sibling_depth = if thorough { 5 } else { 4 };
     run.rule(format!(
-        "operations ({} quick / {} thorough): upsert(p, v) and remove(p) for p in {{a, a/b, a/b/c, a., a0, b}} (thorough + a-, a/b.) and v in {{blob i1, exe i2, tree = empty-tree id, blob with null id (placeholder)}} (thorough + link at a), \
+        "operations ({} quick / {} thorough): upsert(p, v) and remove(p) for p in {{a, a/b, a/b/c, a., a0, b, ab/x, a-b/x, a/b./x}} (thorough + a-, a/b., a.d/x) and v in {{blob i1, exe i2, tree = empty-tree id, blob with null id (placeholder)}} (thorough + link at a), \
          write, set_root(empty), set_root(T0), cursor_at(q) alone and followed by upsert(b | b/c, blob) / upsert(b, empty tree) / remove(b | b/c) / write for q in {{a, a/b}}; \
-         initial roots: empty and T0 = {{a/b/c, a/b., a0, b}} (three levels, sort-sensitive names); every history of length 0..=3 (thorough: 0..=3 over the larger alphabet plus length 4 over the quick alphabet) from both roots, no state merging, \
+         initial roots: empty and T0 = {{a/b/c, a/b., a0, b}} (three levels, sort-sensitive names); every history of length 0..=3 (thorough: 0..=3 over the larger alphabet plus length 4 over the base alphabet without the x-paths) from both roots, no state merging; \
+         sub `siblings`: every history of length 0..=4 (thorough 0..=5) over {} operations that interleave cursor upserts/removes/writes at a and a/b with pending root-editor edits in directories whose names have the cursor directory name as a byte prefix (ab/, a-b/, a.d/, a/b./, a/bc/), from the empty root, T0 and T1 = T0 + {{a-b/y, ab/y}}; \
          each followed by a final write. Reference: nested-map model (insert replaces what it shadows, prefixes become directories, traversed empty-tree entries become plain directories, write drops placeholders and empty directories), \
          root/cursor ids from a from-scratch builder; every tree handed to the out callback must be in git order, without placeholders/duplicates and non-empty (except the (sub)root). \
          Every distinct directory the builder produced is rebuilt by `git mktree --batch` and the ids compared.",
-        quick_alpha.len(),
-        alphabet.len()
+        quick_len,
+        alphabet.len(),
+        siblings.len()
     ));
     run.assume("git 2.39.5 mktree validates the from-scratch builder (all distinct directories, one batch)");
     run.assume("null ids are only used with blobs (placeholder leaves); a tree entry with null id that is traversed before being written is not explored");
@@ -459,6 +502,22 @@ pub fn run(run: &'static Run) {
             for depth in 0..=3usize {
                 vkit::enumerate::seqs(&alphabet, depth, depth, |ops| {
                     for root in [0u8, 1] {
+                        emit(History { root, ops: ops.to_vec() });
+                    }
+                });
+                if !run.over_budget() {
+                    max_depth.fetch_max(depth, std::sync::atomic::Ordering::Relaxed);
+                }
+            }
+        },
+        &eval,
+    );
+    run.sub(
+        "siblings",
+        |emit| {
+            for depth in 0..=sibling_depth {
+                vkit::enumerate::seqs(&siblings, depth, depth, |ops| {
+                    for root in [0u8, 1, 2] {
                         emit(History { root, ops: ops.to_vec() });
                     }
                 });
